@@ -70,7 +70,11 @@ Inductive op : Type :=
 | Recover (name : string) (seed pw : Z) (dfail : bool)
 | Unload (name : string)
 | UpdSecrets (name : string) (pw : Z) (fok : bool) (label : Z) (dfail : bool)
-| Upd (name : string) (fok : bool) (label : Z) (dfail : bool).
+| Upd (name : string) (fok : bool) (label : Z) (dfail : bool)
+(* read-only calls: they return data or an error and never change anything *)
+| ViewSecrets (name : string) (pw : Z)       (* Service.ViewSecrets with a callback that only reads *)
+| GetSeed (name : string) (pw : Z)           (* Service.GetWalletSeed *)
+| ReadW (name : string).                     (* Service.GetWallet / View / GetAddresses *)
 
 (* ------------------------------------------------------------------ maps by name *)
 
@@ -262,6 +266,21 @@ Definition step_gen (scan : bool) (s : st) (o : op) : st * err :=
       | Some w =>
           if negb fok then (s, E "EFn")
           else commit s (set_label w label) dfail
+      end
+  | ViewSecrets name pw =>
+      match find name (mem s) with
+      | None => (s, E "ErrWalletNotExist")
+      | Some w => (s, guard_pw w pw)
+      end
+  | GetSeed name pw =>
+      match find name (mem s) with
+      | None => (s, E "ErrWalletNotExist")
+      | Some w => if negb (w_enc w) then (s, E "ErrWalletNotEncrypted") else (s, guard_pw w pw)
+      end
+  | ReadW name =>
+      match find name (mem s) with
+      | None => (s, E "ErrWalletNotExist")
+      | Some _ => (s, None)
       end
   end.
 
